@@ -45,7 +45,22 @@ type msgCase struct {
 	// FailFirst: before this message the client tried another one whose first package failed
 	// half-way through its serialisation (bytes of it are queued), gave it up with Reset()
 	FailFirst bool `json:"abandoned_attempt_first,omitempty"`
+	// RefusedAfter k > 0: after k packages of the message the client tries to queue a package
+	// that cannot be serialised at all (its WriteTo fails before producing a byte); the call
+	// reports the error, the message goes on and is sent complete, with its header type
+	RefusedAfter int `json:"unserialisable_package_after_packages,omitempty"`
+	// EnvBefore / EnvAfter: the ENVCHANGE token that announces the packet size carries that many
+	// other members (database, language, charset) before / after the PACKSIZE member
+	EnvBefore int `json:"env_members_before_packsize,omitempty"`
+	EnvAfter  int `json:"env_members_after_packsize,omitempty"`
 }
+
+// refused is a package of the application's own that cannot be serialised.
+type refused struct{}
+
+func (refused) ReadFrom(tds.BytesChannel) error { return errors.New("not readable") }
+func (refused) WriteTo(tds.BytesChannel) error  { return errors.New("refused: nothing to serialise") }
+func (refused) String() string                  { return "refused" }
 
 // halfWritten is a package of the application's own whose serialisation fails after some bytes.
 type halfWritten struct{}
@@ -162,7 +177,19 @@ func runCase(c c01Case) (f *vh.Failure) {
 		sizeChanged := false
 		if m.PacketSize != cur {
 			// the server announces a new packet size in a response
-			env := rc.P{Env: &rc.EnvChange{Members: []rc.EnvMember{{Type: rc.EnvPackSize, New: fmt.Sprint(m.PacketSize), Old: fmt.Sprint(cur)}}}}
+			var members []rc.EnvMember
+			others := []rc.EnvMember{{Type: rc.EnvDB, New: "db1", Old: "master"}, {Type: rc.EnvLang, New: "us_english", Old: ""}, {Type: rc.EnvCharset, New: "utf8", Old: "iso_1"}}
+			for i := 0; i < m.EnvBefore; i++ {
+				members = append(members, others[i%3])
+			}
+			members = append(members, rc.EnvMember{Type: rc.EnvPackSize, New: fmt.Sprint(m.PacketSize), Old: fmt.Sprint(cur)})
+			for i := 0; i < m.EnvAfter; i++ {
+				members = append(members, others[(i+1)%3])
+			}
+			if m.EnvBefore > 0 {
+				vh.Label("packet-size-not-the-first-member-of-its-envchange")
+			}
+			env := rc.P{Env: &rc.EnvChange{Members: members}}
 			b, _, _, _ := rc.EncodeStream([]rc.P{env, {Done: &rc.Done{Tok: rc.TokDone}}})
 			ch.WritePacket(&tds.Packet{Header: tds.PacketHeader{MsgType: tds.TDS_BUF_RESPONSE, Status: tds.TDS_BUFSTAT_EOM, Length: uint16(8 + len(b))}, Data: b})
 			for {
@@ -247,6 +274,12 @@ func runCase(c c01Case) (f *vh.Failure) {
 			}
 			if err != nil {
 				return vh.Failf("C01/send-error", "message %d package %d: %v", mi, i, err)
+			}
+			if m.RefusedAfter > 0 && i+1 == m.RefusedAfter && i+1 < len(pkgs) {
+				if err := ch.QueuePackage(ctx, refused{}); err == nil {
+					return vh.Failf("C01/send-error", "message %d: QueuePackage of a package whose WriteTo fails returned nil", mi)
+				}
+				vh.Label("unserialisable-package-mid-message")
 			}
 			if m.RxAfter > 0 && i+1 == m.RxAfter && i+1 < len(pkgs) {
 				body := []byte{0xfd, 0, 0, 0, 0, 0, 0, 0, 0} // DONE(FINAL)
@@ -388,6 +421,13 @@ func genMsg(rt *rapid.T) msgCase {
 		m.HeaderType = rapid.SampledFrom([]int{15, 2, 1, 3, 13}).Draw(rt, "htypec")
 	}
 	m.FailFirst = rapid.IntRange(0, 5).Draw(rt, "failfirst") == 0
+	if rapid.IntRange(0, 5).Draw(rt, "refused") == 0 {
+		m.RefusedAfter = rapid.IntRange(1, 3).Draw(rt, "refusedafter")
+	}
+	if rapid.IntRange(0, 2).Draw(rt, "envmembers") == 0 {
+		m.EnvBefore = rapid.IntRange(0, 2).Draw(rt, "envbefore")
+		m.EnvAfter = rapid.IntRange(0, 2).Draw(rt, "envafter")
+	}
 	if rapid.IntRange(0, 4).Draw(rt, "rxmid") == 0 {
 		m.RxAfter = rapid.IntRange(1, 3).Draw(rt, "rxafter")
 	}
